@@ -145,6 +145,15 @@ class ModelState:
             for a in step.get("args", [])
         ]
         mut = model.is_mutator(op)
+        if isinstance(target, dict) and op in ("setitem", "setdefault") and args and not isinstance(args[0], str):
+            # documented deviation: forbidden (non-string) keys are rejected. Generated programs never do
+            # this on purpose; it happens when the run-time state differs from the one the program was
+            # generated for (popitem may return any pair, an injected fault may or may not take effect).
+            try:
+                hash(args[0])
+                return Outcome("exc", exc=TypeError("non-string key rejected")), target
+            except TypeError as e:
+                return Outcome("exc", exc=e), target
         before = copy.deepcopy(self.logical[res]) if mut and self.truth[res] == MISSING else None
         if op == "popitem" and sut_outcome is not None and sut_outcome.kind == "ret" \
                 and isinstance(target, dict) and target:
@@ -268,6 +277,10 @@ class ModelState:
                 # compares content may skip the write
                 acc.append(MISSING)
         return acc
+
+
+class StopCase(Exception):
+    """The case cannot be continued meaningfully (not a violation)."""
 
 
 class Violation(Exception):
@@ -394,11 +407,14 @@ class Session:
         try:
             for hid, res in self.case["roots"]:
                 self._new_root(hid, res)
-            for i, step in enumerate(self.case["steps"]):
-                self.step_index = i
-                self.do_step(step)
-            self.step_index = len(self.case["steps"])
-            self.finish()
+            try:
+                for i, step in enumerate(self.case["steps"]):
+                    self.step_index = i
+                    self.do_step(step)
+                self.step_index = len(self.case["steps"])
+                self.finish()
+            except StopCase:
+                self.counters["cases_stopped_early"] = self.counters.get("cases_stopped_early", 0) + 1
         finally:
             self.unwind()
             self._restore_cfg()
@@ -475,11 +491,25 @@ class Session:
             nav_exc = None
         except Exception as e:  # noqa: BLE001
             node, nav_exc = None, e
+        fault_fired = None
         if nav_exc is not None:
             sut = Outcome("exc", exc=nav_exc)
         else:
             args = [model.decode(a, self_obj=node, aux=self._aux_sut) for a in step.get("args", [])]
-            sut = model.run_sut(node, op, args)
+            if "fault" in step and not armed:
+                from . import inject
+
+                f = step["fault"]
+                if "eio" in f:
+                    icpt = inject.FaultAtEvent(f["eio"])
+                    sut = inject.with_interceptor(self.scratch, icpt, lambda: model.run_sut(node, op, args))
+                    fault_fired = icpt.fired
+                else:
+                    with inject.FileSizeLimit(f["efbig"]):
+                        sut = model.run_sut(node, op, args)
+                    fault_fired = ("efbig", f["efbig"], None)
+            else:
+                sut = model.run_sut(node, op, args)
         events = fsmon.disarm() if armed else []
         self.counters["fs_events"] += len(events)
         if sut.kind == "exc":
@@ -488,6 +518,35 @@ class Session:
             # A handle the model no longer tracks: used, but nothing is asserted and it is
             # never given a mutator by the generators.
             return
+        # --- an injected I/O fault made the operation raise: the property (C01) only speaks about
+        # calls that return, so nothing is asserted here; the model is brought back in line with
+        # what the resource now holds (whole old / whole new content - crash atomicity is C08).
+        if fault_fired is not None and sut.kind == "exc" and isinstance(sut.exc, OSError):
+            self.counters["faults_raised"] = self.counters.get("faults_raised", 0) + 1
+            got = self.resources[H.res].probe()
+            before = copy.deepcopy(m.truth[H.res])
+            trial = copy.deepcopy(m)
+            trial.apply_op(step, sut_outcome=None)
+            after = trial.logical[H.res]
+            if got == MISSING and before == MISSING:
+                # a missing resource is read as "keep what is in memory": the failed operation's
+                # in-memory effect stays and is persisted by the next successful save
+                m.logical[H.res] = copy.deepcopy(after)
+                m.may_create[H.res] = True
+                m._recheck_kinds(H.res)
+                return
+            if got != MISSING and before != MISSING and model.compare(got, before) == "ok":
+                m.logical[H.res] = copy.deepcopy(before)
+                m._recheck_kinds(H.res)
+                return
+            if got != MISSING and model.compare(got, after) == "ok":
+                m.apply_op(step, sut_outcome=None)
+                m.truth[H.res] = copy.deepcopy(m.logical[H.res])
+                return
+            # torn / partial content (legitimate in the non-atomic write mode): this case cannot go on
+            raise StopCase()
+        if fault_fired is not None:
+            self.counters["faults_fired"] = self.counters.get("faults_fired", 0) + 1
         # --- model
         mod, target = m.apply_op(step, sut_outcome=sut)
         not_a_collection = not isinstance(target, (dict, list))
